@@ -10,15 +10,22 @@ META = {
     'level': 'other',
     'rule_text': 'rule instances: every out.write of the three editing functions classified by the line state it is issued in (typestate '
                  'START / MID over a statement-level walk with loop fixed points); every format specification that builds a fixed-width header '
-                 'field; every rewrite of the fixed-column header line (slice vs global str.replace); every clock read reachable from the '
-                 'editing functions; every column slice of the estimate and site readers against the SINEX 2.02 layout; the element order of '
-                 'the four branches (L/U x with/without velocities) of the matrix reader; renumbering and re-blocking formats',
+                 'field; every rewrite of a fixed-column line (splice X[:a] + E + X[b:]: width of E against b - a, (a, b) against the SINEX header '
+                 'fields; global str.replace); every clock read reachable from the editing functions and the midnight reference of the SSSSS field; '
+                 'every column slice of the estimate and site readers against the SINEX 2.02 layout; the element order and stride of the four '
+                 'branches (L/U x with/without velocities) of the matrix reader; R-INDEX: every index expression of the triangular-matrix code '
+                 '(record parse, sub-matrix extraction per layout, re-blocking, full-matrix fill and mirror, row/column deletion, triangle writers, '
+                 'zero-line test, reader fill) as an exact affine form against the form the record layout demands; header parameter-count '
+                 'arithmetic; record-class and L/U-flag columns; agreement of the estimate tuple layout between its producer and its consumer',
     'explanation': 'Static: a typestate analysis of the output stream (does each record start at the beginning of a line, does the file end with a '
-                   'newline) with interprocedural string-shape summaries of the block readers; format-specification and slice checks read from the '
-                   'syntax tree; call-graph reachability for clock reads; affine index extraction for the triangular matrix reader. This is the '
-                   'only way to look at gnss.py at all here. It decides well-formedness of the written lines, fixed-width header stamps independent '
-                   'of the time of day, and reader column/element agreement. It does not decide that the sub-matrix extraction loops select '
-                   'exactly the remaining rows and columns for every removal set (a loop invariant over runtime data).',
+                   'newline) with interprocedural string-shape summaries of the block readers; format-specification, slice and string-width checks '
+                   'read from the syntax tree; call-graph reachability for clock reads; affine index extraction for all loops over the triangular '
+                   'matrix: position p of a stored row r is column first(r) + p with first = 1 (lower) / r (upper), a row holds r / N - r + 1 '
+                   'values, a record holds up to three values starting at PARA2, parameter p sits at 0-based index p - 1 minus the number already '
+                   'deleted. This is the only way to look at gnss.py at all here (it cannot be imported). It decides well-formedness of the written '
+                   'lines, fixed-width header stamps independent of the time of day, reader column/element agreement, and that every index used by '
+                   'the editors is the one the layout requires (necessary conditions for "exactly the remaining rows and columns"); it does not '
+                   'prove the loops as a whole (no loop invariant over the runtime dictionaries is established) and assumes well-formed input blocks.',
 }
 
 START, MID, UNK = 'START', 'MID', 'UNKNOWN'
@@ -586,33 +593,56 @@ def reader_rules(repo, rep, m):
             tuples.append(n)
     doc_order3 = [(0, 0), (0, 1), (0, 2), (1, 1), (1, 2), (2, 2)]
     want6 = doc_order3 + [(a + 3, b + 3) for a, b in doc_order3]
+    from . import c18x
     for n in tuples:
-        pairs = []
-        stride = None
-        for e in n.value.elts[2:]:
-            p = index_pair(e)
-            if p is None:
-                pairs = None
-                break
-            stride = p[2]
-            pairs.append((p[0], p[1]))
         key = 'R-SIBLING::geodepy/gnss.py::read_sinex_matrix::info@%s' % branch_of(f, n)
-        if pairs is None:
-            rep.undecided('R-SIBLING', key, where(f, n), 'element indices are not of the form element[k*i + a][k*i + b]')
-            continue
         lower = 'lower' in branch_of(f, n)
-        norm = [(min(a, b), max(a, b)) for a, b in pairs]
-        want = want6 if len(pairs) == 12 else doc_order3
-        tri_ok = all((a >= b) if lower else (a <= b) for a, b in pairs)
-        if norm == want and tri_ok:
-            rep.holds('R-SIBLING', key, where(f, n), 'elements (var_x, cov_xy, cov_xz, var_y, cov_yz, var_z%s) in the documented order, read from the %s triangle' % (
-                ', velocities likewise' if len(pairs) == 12 else '', 'lower' if lower else 'upper'))
+        elts = n.value.elts[2:]
+        want = want6 if len(elts) == 12 else doc_order3
+        stride = 6 if len(elts) == 12 else 3
+        if len(elts) not in (6, 12):
+            rep.violated('R-SIBLING', key, where(f, n), 'the tuple carries %d matrix elements; 6 (positions) or 12 (positions and velocities) are documented' % len(elts))
+            continue
+        # loop variable of the enclosing for
+        loopvar = None
+        for lp in ast.walk(f.node):
+            if isinstance(lp, ast.For) and any(x is n for x in ast.walk(lp)) and isinstance(lp.target, ast.Name):
+                loopvar = lp.target.id
+        bad = []
+        unknown = []
+        pairs = []
+        for k, e in enumerate(elts):
+            if not (isinstance(e, ast.Subscript) and isinstance(e.value, ast.Subscript)):
+                unknown.append(k)
+                continue
+            if any(isinstance(x, ast.BinOp) and isinstance(x.op, (ast.Div, ast.Pow, ast.Mod)) for x in ast.walk(e)):
+                a, b = want[k]
+                bad.append((k, {'<%s>' % stmt_text(e.value.slice): 1}, {'<%s>' % stmt_text(e.slice): 1}, c18x.const(a), c18x.const(b)))
+                continue
+            r, c = c18x.aff(e.value.slice), c18x.aff(e.slice)
+            if loopvar is None or set(r) - {'', loopvar} or set(c) - {'', loopvar}:
+                unknown.append(k)
+                continue
+            a, b = want[k]
+            ra, ca = (max(a, b), min(a, b)) if lower else (min(a, b), max(a, b))
+            wr = c18x.add(c18x.scale(c18x.var(loopvar), stride), c18x.const(ra))
+            wc = c18x.add(c18x.scale(c18x.var(loopvar), stride), c18x.const(ca))
+            pairs.append((r, c))
+            if r != wr or c != wc:
+                bad.append((k, r, c, wr, wc))
+        names = ['var_x', 'cov_xy', 'cov_xz', 'var_y', 'cov_yz', 'var_z', 'var_vx', 'cov_vxy', 'cov_vxz', 'var_vy', 'cov_vyz', 'var_vz']
+        if bad:
+            k, r, c, wr, wc = bad[0]
+            rep.violated('R-SIBLING', key, where(f, n), 'element %d (%s) of the %s-triangular %s tuple is element[%s][%s]; the documented order, %d parameters per station and the %s '
+                         'triangle require element[%s][%s]%s' % (k, names[k], 'lower' if lower else 'upper', 'velocity' if stride == 6 else 'position', c18x.show(r), c18x.show(c),
+                                                                stride, 'lower' if lower else 'upper', c18x.show(wr), c18x.show(wc),
+                                                                '' if len(bad) == 1 else ' (and %d more)' % (len(bad) - 1)),
+                         expected='element[%s][%s]' % (c18x.show(wr), c18x.show(wc)), actual='element[%s][%s]' % (c18x.show(r), c18x.show(c)))
+        elif unknown:
+            rep.undecided('R-SIBLING', key, where(f, n), 'element indices %s are not affine in the station index' % unknown)
         else:
-            names = {(0, 0): 'var_x', (0, 1): 'cov_xy', (0, 2): 'cov_xz', (1, 1): 'var_y', (1, 2): 'cov_yz', (2, 2): 'var_z'}
-            got = [names.get((a % 3, b % 3) if a // 3 == b // 3 else None, '?') for a, b in norm]
-            rep.violated('R-SIBLING', key, where(f, n), 'the %s-triangular branch returns the elements in the order (%s); the documented order (and the other branch) is '
-                         '(var_x, cov_xy, cov_xz, var_y, cov_yz, var_z)' % ('lower' if lower else 'upper', ', '.join(got[:6])),
-                         expected=str(want), actual=str(pairs))
+            rep.holds('R-SIBLING', key, where(f, n), 'elements (var_x, cov_xy, cov_xz, var_y, cov_yz, var_z%s) in the documented order, stride %d, read from the %s triangle' % (
+                ', velocities likewise' if len(elts) == 12 else '', stride, 'lower' if lower else 'upper'))
     rep.floor('R-SIBLING', 4, 'four branches of the matrix reader')
 
 
@@ -671,10 +701,19 @@ def run(repo, rep):
     clock_rules(repo, rep, m)
     prefix_rules(repo, rep, m)
     reader_rules(repo, rep, m)
+    from . import c18x
+    c18x.run(rep, m)
+    c18x.run2(rep, m)
 
 
 def controls(repo):
     out = []
     out.append(('estimate-column', text_variant(repo, 'geodepy/gnss.py', 'stax_sd = float(line[69:80])', 'stax_sd = float(line[68:80])'), 'read_sinex_estimate::stax_sd'))
     out.append(('missing-newline', text_variant(repo, 'geodepy/gnss.py', "        out.write('%ENDSNX\\n')\n\n    return\n\ndef remove_velocity_sinex", "        out.write('%ENDSNX')\n\n    return\n\ndef remove_velocity_sinex"), 'remove_stns_sinex::<end>'))
+    out.append(('column-test-off-by-one', text_variant(repo, 'geodepy/gnss.py', "if j+1 not in skip:", "if j not in skip:"), 'extract::lower::column-test'))
+    out.append(('mirror-element', text_variant(repo, 'geodepy/gnss.py', "Q[col+1, row-1] = q3", "Q[col+1, row] = q3"), 'fill::value2'))
+    out.append(('zero-test-field', text_variant(repo, 'geodepy/gnss.py', 'col[3]=="0.00000000000000e+00" and col[4]=="0.00000000000000e+00"',
+                                                'col[3]=="0.00000000000000e+00" and col[3]=="0.00000000000000e+00"'), 'zero-line::5-fields'))
+    out.append(('splice-width', text_variant(repo, 'geodepy/gnss.py', "        header = header[:15] + creation_time + header[27:]\n        old_num_params = header[60:65]",
+                                             "        header = header[:15] + creation_time + header[28:]\n        old_num_params = header[60:65]"), 'header[15:28]'))
     return out
